@@ -87,9 +87,16 @@ func fnExec(ctx *cmdContext, args map[string]any) (output respValue, err error) 
 	// process all of the queued commands, regardless if one errors
 	results := make([]any, 0, len(*ctx.cs.cmdQueue))
 	for _, cc := range *ctx.cs.cmdQueue {
-		// use the multi command id instead of each queued command's id,
-		// so that the commands won't try to acquire a lock that we already own
-		cc.dsc.id = ctx.dsc.id
+		if cc.dsc.ds != ctx.cs.ds {
+			// an earlier queued SELECT changed the connection's database: the command
+			// runs against the database selected now, not the one selected when it was queued
+			cc.dsc = ctx.cs.ds.newDataStoreCommand()
+		}
+		if cc.dsc.ds == ctx.dsc.ds {
+			// use the multi command id instead of each queued command's id,
+			// so that the commands won't try to acquire a lock that we already own
+			cc.dsc.id = ctx.dsc.id
+		}
 		results = append(results, ctx.cd.dispatchHandler(cc))
 	}
 
